@@ -331,7 +331,9 @@ Definition mk (c : cfg) (a : cargs) : res resp :=
             match body with
             | BBytes b => Ok (mk_finish a st hl1 cond b)
             | BText t =>
-                let enc := if truthy encoding1 then encoding1 else charset_of hl1 in
+                (* encoding = self.charset or encoding  (repaired code, fixes/C02-1: the charset the
+                   Content-Type announces wins over the charset argument) *)
+                let enc := if truthy (charset_of hl1) then charset_of hl1 else encoding1 in
                 match enc with
                 | None => Exc E_Type
                 | Some e => match encode e t with Exc x => Exc x | Ok b => Ok (mk_finish a st hl1 cond b) end
